@@ -366,6 +366,30 @@ func (r *Run) solveAll() {
 		}()
 	}
 	wg.Wait()
+	// 3. an obligation that is on the baseline of discharged obligations and came back undecided
+	// (timeout / unknown — not a refutation) is tried again on its own, with nothing else running and a
+	// long timeout: a loaded machine must not turn a slow proof into an alarm.
+	base := r.loadBaseline()
+	nretry := 0
+	for _, o := range todo {
+		if o.Cover || o.MustFail || !base[o.Name] || r.knownSet[o.Name] {
+			continue
+		}
+		if o.Res.Status == "unsat" || o.Res.Status == "sat" {
+			continue
+		}
+		script := o.script(r.L.prelude)
+		if len(script) > 8000000 {
+			continue
+		}
+		nretry++
+		res := Solve(script, 12*r.Tmo, true)
+		if res.Status == "unsat" || res.Status == "sat" {
+			o.Res = res
+			o.Backend = res.Solver
+		}
+	}
+	r.Extra["retried_alone"] = nretry
 }
 
 // solveBatch checks a chunk of obligations of one unit in a single z3 process under push/pop.
